@@ -145,7 +145,9 @@ type World struct {
 	lastProgress int
 	contRun      int // consecutive "continue" decisions of the running task
 	hot          bool // the pending scheduling point is an unguarded statement (YieldStmt)
-	numCPU       int  // the simulated machine's CPU count (0: not drawn yet)
+	ambient      bool // not a run: the world of goroutines started outside any run (see ambientWorld)
+	numCPU       map[string]int // CPU count of each party's machine (drawn when first asked)
+	cpuOverride  int            // > 0: what NumCPU answers regardless of the party (SetNumCPU)
 }
 
 // W is the world of the run in progress (nil outside Run).
@@ -153,6 +155,14 @@ var W *World
 var epoch uint64
 
 type killSentinel struct{}
+
+// IsKill reports whether a recovered panic value is the kernel's request to unwind a task at
+// the end of a run. Harness code that recovers panics of the code under test on behalf of a
+// task must pass it on (panic(v) again in the task's own goroutine).
+func IsKill(v any) bool {
+	_, ok := v.(killSentinel)
+	return ok
+}
 
 // Result is what Run returns.
 type Result struct {
@@ -171,6 +181,42 @@ type Result struct {
 // Run executes root as the first task of a fresh world and drives all tasks
 // to completion, deadlock or the step cap.
 func Run(cfg Config, tape *Tape, root func()) Result {
+	if W != nil && W.ambient {
+		// goroutines started outside a run (package initialisation, harness preparation) have
+		// been running as tasks of an ambient world; they must have ended by now
+		for spins := 0; spins < 1_000_000; spins++ {
+			// let runnable leftovers (a worker that only has to return) finish
+			pending := false
+			for _, t := range W.tasks[1:] {
+				if t.state == tRunnable {
+					pending = true
+				}
+			}
+			if !pending {
+				break
+			}
+			W.tasks[0].state = tBlocked
+			W.tasks[0].BlockOn = "draining the ambient world"
+			others := 0
+			for _, t := range W.tasks[1:] {
+				if t.state != tDone {
+					others++
+				}
+			}
+			_ = others
+			// run the others until none of them can run; the root is readied by a zero-delay event
+			root := W.tasks[0]
+			After(0, func() { Ready(root) })
+			W.dispatch(root)
+		}
+		for _, t := range W.tasks[1:] {
+			if t.state != tDone {
+				fmt.Fprintf(os.Stderr, "verifsim: a goroutine started outside a simulated run (%s) is still alive when a run starts: exit 2\n", t.ID)
+				os.Exit(2)
+			}
+		}
+		W = nil
+	}
 	if W != nil {
 		panic("rt.Run: nested run")
 	}
@@ -340,10 +386,39 @@ func (w *World) newTask(site, party string, fn func()) *Task {
 	return t
 }
 
+// ambientWorld serves code of the library that starts goroutines outside any simulated run -
+// a package's init function, a preparation step of the harness. The calling goroutine becomes
+// the first task of a world with a fixed tape; the goroutines it starts are tasks of that world
+// and everything blocks and wakes through the kernel as usual, deterministically. The world
+// lasts until the next Run starts, by which time all its other tasks must have ended. A
+// deadlock in it is harness trouble (exit 2), never a verdict.
+func ambientWorld() *World {
+	epoch++
+	w := &World{
+		Tape:    NewTape(0),
+		cfg:     Config{MaxSteps: 1 << 40},
+		h:       sha256.New(),
+		done:    make(chan Outcome, 1),
+		Epoch:   epoch,
+		reach:   map[string]int{},
+		spawnN:  map[string]int{},
+		ambient: true,
+	}
+	w.pol = drawPolicy(w.Tape)
+	t := &Task{ID: "ambient", state: tRunning, wake: make(chan struct{}, 1), exited: make(chan struct{}, 1)}
+	w.tasks = append(w.tasks, t)
+	w.cur = t
+	W = w
+	return w
+}
+
 // Go spawns a new task (rewritten `go` statements and harness tasks).
 func Go(site string, fn func()) {
 	w := W
-	if w == nil || w.ended {
+	if w == nil {
+		w = ambientWorld()
+	}
+	if w.ended {
 		panic("rt.Go outside a simulated run (site " + site + ")")
 	}
 	w.enter()
@@ -508,6 +583,15 @@ func (w *World) dispatch(self *Task) {
 }
 
 func (w *World) finish(o Outcome, self *Task) {
+	if w.ambient {
+		fmt.Fprintf(os.Stderr, "verifsim: goroutines started outside a simulated run ended in %v: exit 2\n", o)
+		for _, t := range w.tasks {
+			if t.state != tDone {
+				fmt.Fprintf(os.Stderr, "  %s: %s\n", t.ID, t.BlockOn)
+			}
+		}
+		os.Exit(2)
+	}
 	w.cur = nil
 	w.done <- o
 	if self != nil {
@@ -781,20 +865,50 @@ func SpawnFromEvent(party, site string, fn func()) {
 	w.newTask(site, party, fn)
 }
 
-// NumCPU is the CPU count of the simulated machine: 1, 2, 4, 8 or 16, drawn from the tape the
-// first time a run asks (4 outside a run). Code that sizes a worker pool by runtime.NumCPU or
-// GOMAXPROCS gets that many workers whatever the host has.
+// cpuChoices are the machines of the simulation: single-CPU, small, odd and wide ones.
+var cpuChoices = []int{1, 2, 3, 4, 6, 8, 12, 16, 24, 28, 32, 48, 64, 96, 128}
+
+// NumCPU is the CPU count of the machine the calling task's party runs on, drawn from the tape
+// the first time the party asks (4 outside a run). Code that sizes a worker pool or splits work by
+// runtime.NumCPU or GOMAXPROCS gets that value whatever the host has - and two parties of one
+// run are, as in any deployment, different machines.
 func NumCPU() int {
 	w := W
 	if w == nil || w.ended {
 		return 4
 	}
-	if w.numCPU == 0 {
-		w.numCPU = []int{1, 2, 4, 8, 16}[w.Tape.Choose(SGen, 5)]
-		Reach("runtime.NumCPU-asked")
+	if w.cpuOverride > 0 {
+		return w.cpuOverride
 	}
-	return w.numCPU
+	party := ""
+	if w.cur != nil {
+		party = w.cur.Party
+	}
+	n, ok := w.numCPU[party]
+	if !ok {
+		if w.numCPU == nil {
+			w.numCPU = map[string]int{}
+		}
+		n = cpuChoices[w.Tape.Choose(SGen, len(cpuChoices))]
+		w.numCPU[party] = n
+		Reach("runtime.NumCPU-asked")
+		if w.cfg.Trace {
+			w.tracef("machine of party %q has %d CPUs", party, n)
+		}
+	}
+	return n
 }
+
+// SetNumCPU fixes what NumCPU answers until it is called again (0: back to per-party values).
+// Worlds whose "machines" are not parties (a compilation job that stands for another host) use it.
+func SetNumCPU(n int) {
+	if W != nil {
+		W.cpuOverride = n
+	}
+}
+
+// CPUChoice draws a CPU count from the tape (for SetNumCPU).
+func CPUChoice(t *Tape) int { return cpuChoices[t.Choose(SGen, len(cpuChoices))] }
 
 // LiveTasks counts the tasks that have not ended.
 func LiveTasks() int {
